@@ -98,8 +98,12 @@ def _pad_face_connections(
 
     # Detect all the axes we have to deal with during padding
     # all the axes defined in the connections + the axes of the padding width should give all axes we need to iterate over
-    pad_axes = list(
-        set(_get_all_connection_axes(connections, facedim) + list(padding_width.keys()))
+    # (taken in the order of the grid's axes, so that the result - in particular the corner
+    # cells of a halo, which depend on the order of padding - is a function of the arguments)
+    grid_axes_order = list(grid.axes)
+    pad_axes = sorted(
+        set(_get_all_connection_axes(connections, facedim) + list(padding_width.keys())),
+        key=grid_axes_order.index,
     )
 
     padding_width = {axname: padding_width.get(axname, (0, 0)) for axname in pad_axes}
